@@ -48,7 +48,7 @@ def race_rounds(rng, thorough):
     rounds = []
     for n in range(9, 49 if thorough else 41):        # calls with more arguments than any earlier call of the process
         rounds.append({"warm": "nil.try.{\\%d}" % n, "prog": "{[\\1, \\%d]}(%s)" % (n, ", ".join(map(str, range(1, n + 1))))})
-    for k in range(40 if thorough else 16):
+    for k in range(160 if thorough else 48):
         t = f"r{k}_{rng.randint(0, 10**6)}"
         kind = k % 8
         if kind == 0:      # one symbol, interned earlier, converted back by all and hashed / compared / used as a key for the first time
